@@ -354,6 +354,15 @@ func checkC04(c *core.Ctx) {
 												}
 											}
 											ok = good && cnt >= 1
+											// the closure is set up only after the block was taken: every store of the
+											// block into the cell dominates the closure's creation
+											for _, r2 := range *al.Referrers() {
+												if s2, okS := r2.(*ssa.Store); okS && s2.Addr == ssa.Value(al) {
+													if !core.Dominates(s2, ref) {
+														ok = false
+													}
+												}
+											}
 										}
 									}
 								}
@@ -361,7 +370,7 @@ func checkC04(c *core.Ctx) {
 						}
 					}
 				}
-				r2.Check(ok, core.FnKey(fn)+"/origData", p.InstrPos(st), "origData is the block this NewPacket call took from the pool", "origData is not the block obtained by this call's pool.Get")
+				r2.Check(ok, core.FnKey(fn)+"/origData", p.InstrPos(st), "origData is the block this NewPacket call took from the pool", "origData is not (on every path that builds a pooled packet) the block obtained by this call's pool.Get: a pooled packet can be built with no block, and its Dispose then puts nil into the pool, which the next pooled decode dereferences")
 			}
 		}
 		if nStore == 0 {
